@@ -151,6 +151,17 @@ Proof.
     + unfold match_plain. rewrite !andb_true_iff. tauto.
 Qed.
 
+(* "the previous character is not a minus sign" (the look-behind of the plain pattern) *)
+Definition nominus (o : option Z) : bool := negb (option_eqb Z.eqb o (Some 45)).
+
+Lemma match_at_start_nominus m prev s :
+  is_neg m = false -> match_at m prev s = true -> nominus prev = true.
+Proof.
+  unfold match_at, is_neg, nominus. destruct m as [|c body].
+  - unfold match_plain, c_minus. rewrite !andb_true_iff. tauto.
+  - unfold c_minus. intros ->. unfold match_plain, c_minus. rewrite !andb_true_iff. tauto.
+Qed.
+
 (* the start-of-match boundary of the plain pattern *)
 Lemma match_at_start_pos m prev s :
   is_neg m = false -> match_at m prev s = true -> bnd prev (hd_opt s) = true.
@@ -162,14 +173,14 @@ Qed.
 
 (* construction of a match *)
 Lemma match_at_intro_pos m prev s :
-  is_neg m = false ->
+  is_neg m = false -> nominus prev = true ->
   bnd prev (hd_opt s) = true -> starts_with m s = true ->
   bnd (last_opt prev m) (hd_opt (skipn (List.length m) s)) = true ->
   match_at m prev s = true.
 Proof.
-  unfold match_at, is_neg. intros Hn H1 H2 H3. destruct m as [|c body].
-  - unfold match_plain. rewrite H1, H2, H3. reflexivity.
-  - unfold c_minus. rewrite Hn. unfold match_plain. rewrite H1, H2, H3. reflexivity.
+  unfold match_at, is_neg, nominus. intros Hn H0 H1 H2 H3. destruct m as [|c body].
+  - unfold match_plain, c_minus. rewrite H0, H1, H2, H3. reflexivity.
+  - unfold c_minus. rewrite Hn. unfold match_plain, c_minus. rewrite H0, H1, H2, H3. reflexivity.
 Qed.
 
 Lemma match_at_intro_neg body prev s' :
@@ -207,7 +218,7 @@ Definition bprefix (o o' : str) : bool :=
 Definition bsuffix (p p' : str) : bool :=
   let n := (List.length p' - List.length p)%nat in
   (List.length p <=? List.length p')%nat && str_eqb (skipn n p') p
-  && (is_neg p || negb (wordb (last_opt None (firstn n p')))).
+  && (is_neg p || (negb (wordb (last_opt None (firstn n p'))) && nominus (last_opt None (firstn n p')))).
 Definition collides (k k' : key) : bool :=
   str_eqb (kN k) (kN k') && bsuffix (kP k) (kP k') && bprefix (kO k) (kO k').
 
@@ -273,6 +284,14 @@ Proof.
   rewrite app_assoc in E. apply app_inj_tail in E. destruct E as [_ ->]. eauto.
 Qed.
 
+(* what precedes an atom: nothing or an operator character *)
+Definition prev_ok (o : option Z) : bool := negb (wordb o) && nominus o.
+
+Lemma delim_prev_ok c : is_delim c = true -> prev_ok (Some c) = true.
+Proof.
+  unfold is_delim. rewrite !orb_true_iff, !Z.eqb_eq. intros [[[->| ->]| ->]| ->]; reflexivity.
+Qed.
+
 Definition rest_ok (r : str) : bool := match r with [] => true | d :: _ => is_delim d end.
 
 Lemma rest_ok_nonword r : rest_ok r = true -> wordb (hd_opt r) = false.
@@ -316,11 +335,12 @@ Qed.
 
 (* --- a match inside another (raw) message: exactly the collision condition --- *)
 Lemma msg_match_inv k k' u v prev R :
-  wf k -> wf k' -> msg k' = u ++ v -> v <> [] -> rest_ok R = true -> wordb prev = false ->
+  wf k -> wf k' -> msg k' = u ++ v -> v <> [] -> rest_ok R = true -> prev_ok prev = true ->
   match_at (msg k) (last_opt prev u) (v ++ R) = true ->
   kP k' = u ++ kP k /\ kN k = kN k' /\
   exists w, kO k' = kO k ++ w /\ wordb (hd_opt w) = false /\
-            (is_neg (kP k) = true \/ wordb (last_opt None u) = false).
+            (is_neg (kP k) = true \/
+             (wordb (last_opt None u) = false /\ nominus (last_opt None u) = true)).
 Proof.
   intros W W' E Hv HR Hprev M.
   pose proof (match_at_prefix _ _ _ M) as Hsw. apply starts_with_split in Hsw. destruct Hsw as [r Er].
@@ -359,12 +379,14 @@ Proof.
   - (* start boundary *)
     destruct (is_neg (kP k)) eqn:Hn; [left; reflexivity|right].
     pose proof (match_at_start_pos _ _ _ (eq_trans (is_neg_msg k W) Hn) M) as Hb.
+    pose proof (match_at_start_nominus _ _ _ (eq_trans (is_neg_msg k W) Hn) M) as Hm.
     pose proof (wf_P0 k W) as H0. pose proof (point_nonempty k W) as Hne.
     unfold msg in Hb. destruct (kP k) as [|c p]; [congruence|].
     cbn in Hb, H0, Hn. rewrite Hn in H0. cbn in H0. rewrite orb_false_r in H0.
     unfold bnd in Hb. cbn in Hb. rewrite H0 in Hb.
-    destruct u as [|a u]; [reflexivity|].
+    destruct u as [|a u]; [split; reflexivity|].
     rewrite (last_opt_nonempty None prev) by discriminate.
+    split; [|exact Hm].
     destruct (wordb (last_opt prev (a :: u))); [discriminate|reflexivity].
 Qed.
 
@@ -372,7 +394,7 @@ Lemma firstn_len_app {A} (u p : list A) : firstn (List.length u) (u ++ p) = u.
 Proof. induction u as [|a u IH]; cbn; [destruct p; reflexivity|f_equal; exact IH]. Qed.
 
 Lemma msg_match_collides k k' u v prev R :
-  wf k -> wf k' -> msg k' = u ++ v -> v <> [] -> rest_ok R = true -> wordb prev = false ->
+  wf k -> wf k' -> msg k' = u ++ v -> v <> [] -> rest_ok R = true -> prev_ok prev = true ->
   match_at (msg k) (last_opt prev u) (v ++ R) = true -> collides k k' = true.
 Proof.
   intros W W' E Hv HR Hp M.
@@ -384,15 +406,16 @@ Proof.
     rewrite skipn_len_app, firstn_len_app.
     rewrite (proj2 (str_eqb_eq _ _) eq_refl).
     rewrite (proj2 (Nat.leb_le _ _)) by lia. cbn [andb].
-    destruct Hst as [->| ->]; [reflexivity|apply orb_true_r].
+    destruct Hst as [->|[-> ->]]; [reflexivity|apply orb_true_r].
   - unfold bprefix. rewrite EO, starts_with_app, skipn_len_app, Hw. reflexivity.
 Qed.
 
 (* --- the pattern of a key matches at its own raw message --- *)
 Lemma msg_self_match k prev R :
-  wf k -> wordb prev = false -> rest_ok R = true -> match_at (msg k) prev (msg k ++ R) = true.
+  wf k -> prev_ok prev = true -> rest_ok R = true -> match_at (msg k) prev (msg k ++ R) = true.
 Proof.
-  intros W Hp HR. pose proof (rest_ok_nonword R HR) as HRw.
+  intros W Hpo HR. unfold prev_ok in Hpo. apply andb_true_iff in Hpo. destruct Hpo as [Hp Hnm].
+  apply negb_true_iff in Hp. pose proof (rest_ok_nonword R HR) as HRw.
   pose proof (wf_P0 k W) as H0.
   destruct (is_neg (kP k)) eqn:Hn.
   - (* -\b<body>\b *)
@@ -410,6 +433,7 @@ Proof.
       unfold bnd. rewrite Hl, HRw. reflexivity.
   - apply match_at_intro_pos.
     + rewrite is_neg_msg by exact W. exact Hn.
+    + exact Hnm.
     + unfold msg. destruct (kP k) as [|c p]; [discriminate|].
       cbn in H0, Hn. rewrite Hn in H0. cbn in H0. rewrite orb_false_r in H0.
       cbn. unfold bnd. cbn. rewrite Hp, H0. reflexivity.
@@ -459,7 +483,7 @@ Proof. unfold msg. destruct (kP k); discriminate. Qed.
 Lemma sub_mixed k done : wf k -> forall ts prev,
   forallb tok_ok ts = true -> sep_ok ts = true ->
   (forall k', In k' (atoms ts) -> mem key_eqb k' done = false -> k' <> k -> collides k k' = false) ->
-  match ts with SAtom _ :: _ => wordb prev = false | _ => True end ->
+  match ts with SAtom _ :: _ => prev_ok prev = true | _ => True end ->
   sub_aux (msg k) (tmpl k) O prev (render_mixed done ts) = render_mixed (k :: done) ts.
 Proof.
   intros W. induction ts as [|t r IH]; intros prev Hok Hsep Hcol Hprev; [reflexivity|].
@@ -473,7 +497,7 @@ Proof.
     assert (Hnext : match r with SAtom _ :: _ => False | _ => True end).
     { destruct r as [|[k2|c2] r']; cbn in Hadj; [exact I|discriminate|exact I]. }
     pose proof (rest_ok_render done r Hr Hnext) as HR.
-    assert (Hnext' : match r with SAtom _ :: _ => wordb (last_opt prev (tok_mixed (k :: done) (SAtom k'))) = false
+    assert (Hnext' : match r with SAtom _ :: _ => prev_ok (last_opt prev (tok_mixed (k :: done) (SAtom k'))) = true
                                 | _ => True end).
     { destruct r as [|[k2|c2] r']; [exact I|destruct Hnext|exact I]. }
     cbn [tok_ok] in Ht. apply wf_key_wf in Ht.
@@ -509,7 +533,7 @@ Proof.
       apply (msg_no_delim k c W Ht). rewrite Em. left. reflexivity. }
     cbn [sub_aux]. rewrite Mf. f_equal. apply IH; auto.
     destruct r as [|[k2|c2] r']; [exact I| |exact I].
-    cbn. apply delim_not_word. exact Ht.
+    apply delim_prev_ok. exact Ht.
 Qed.
 
 (* ---------- the whole loop ---------- *)
